@@ -346,8 +346,15 @@ def wrapper_call_sites(facts, wr):
                 for ev2 in p.events[i + 1:]:
                     if ev2[0] == 'setitem' and contains(ev2[3], v):
                         post = additive_const(ev2[3], v)
-                found.append(dict(fn=qual, node=ev[2], item=v[2][w['item']], pos=v[2][w['pos']], wrapper=v[1],
-                                  kind='BAKE' if baked else ('RETURN' if returned else 'PEEK'), post=post, path=p))
+                item_v = v[2][w['item']]
+                flag = None
+                for t, pol, _ in p.conds:
+                    if t == ('attr', item_v, 'is_auipc_jump'):
+                        flag = pol
+                    if t[0] == 'call' and t[1] == 'getattr' and len(t[2]) >= 2 and t[2][0] == item_v and t[2][1] == C('is_auipc_jump'):
+                        flag = pol
+                found.append(dict(fn=qual, node=ev[2], item=item_v, pos=v[2][w['pos']], wrapper=v[1],
+                                  kind='BAKE' if baked else ('RETURN' if returned else 'PEEK'), post=post, path=p, flag=flag))
 
     for fname, fn in facts.funcs.items():
         names = {n.func.id for n in ast.walk(fn) if isinstance(n, ast.Call) and isinstance(n.func, ast.Name)}
@@ -394,6 +401,31 @@ def check_auipc(report, facts, rule_adj, rule_sib):
                     if imm is not None and imm[0] == 'new' and imm[1] in ('Lo', 'Hi'):
                         nonlinear = True
     report.count('constructions with is_auipc_jump=True', flagged)
+    # mnemonics of the items built with the flag, and the compression predicates that can ever be applied to such an item
+    auipc_names = set()
+    for r in pa.rows:
+        for val, node in r['app_values']:
+            if val[0] == 'new':
+                f = ctor_fields(facts, val)
+                if f.get('is_auipc_jump') == C(True) and f.get('name') is not None and is_const(f['name']):
+                    auipc_names.add(f['name'][1])
+    relevant_factories = None
+    try:
+        from .comprel import CompRel
+        rel = CompRel(facts)
+        relevant_factories = set()
+        for ru in rel.rules:
+            if ru.name is None or ru.name in auipc_names:
+                relevant_factories.update(fname for _, fname, _ in rel.pa.lifted(ru.key, ru.preds))
+    except AnalysisError:
+        relevant_factories = None
+
+    def never_sees_flagged(fn_qual):
+        """A site inside a compression predicate that no rule applies to an is_auipc_jump mnemonic."""
+        parts = fn_qual.split('.')
+        if relevant_factories is None or len(parts) < 2 or parts[0] != 'transform_compressible':
+            return False
+        return not any(p_ in relevant_factories for p_ in parts[1:])
     # effective (position offset, post correction) for an is_auipc_jump item, per entry site
     entries = []          # (where, k, post, kind, node, fn, note)
     for s in sites:
@@ -402,10 +434,23 @@ def check_auipc(report, facts, rule_adj, rule_sib):
         flag = receiver_flag(s)
         base, k = position_offset(s)
         where = '{}:{}'.format(s.fn, s.node.lineno)
+        if never_sees_flagged(s.fn):
+            report.ok(rule_sib, where + ': predicate is never applied to an is_auipc_jump item')
+            continue
+        f_ = s.path.facts.get(s.recv)
+        if f_ and 'Arithmetic' in f_['isa']:
+            # a plain arithmetic expression does not depend on the evaluation point at all
+            report.ok(rule_sib, where + ': receiver is known to be Arithmetic (position-independent)')
+            continue
         if flag is True or flag is None:
             entries.append((where, k, s.post or 0, s.kind, s.node, s.fn, 'flag known true' if flag else 'flag not consulted'))
     for c in wcalls:
         w = wr[c['wrapper']]
+        if c.get('flag') is False:
+            continue          # on this path the item is known not to be an auipc-based jump
+        if never_sees_flagged(c['fn']):
+            report.ok(rule_sib, '{}:{}: predicate is never applied to an is_auipc_jump item'.format(c['fn'], c['node'].lineno))
+            continue
         base, kc = c['pos'], 0
         while base[0] == 'bin' and base[1] in ('+', '-') and is_const(base[3]) and isinstance(base[3][1], int):
             kc += base[3][1] if base[1] == '+' else -base[3][1]
@@ -414,8 +459,10 @@ def check_auipc(report, facts, rule_adj, rule_sib):
         for flag, k, post, s in cases:
             if post is None:
                 raise AnalysisError('R-auipc: wrapper {} post-processes the evaluated immediate in a way the rule cannot follow'.format(c['wrapper']))
-            entries.append(('{}:{}'.format(c['fn'], c['node'].lineno), kc + k, (c['post'] or 0) + post, c['kind'], c['node'], c['fn'],
-                            'via {}'.format(c['wrapper'])))
+            note = 'via {}'.format(c['wrapper'])
+            if flag is None and c.get('flag') is None:
+                note = 'flag not consulted'
+            entries.append(('{}:{}'.format(c['fn'], c['node'].lineno), kc + k, (c['post'] or 0) + post, c['kind'], c['node'], c['fn'], note))
     # (a) adjust-after-nonlinear, at every level
     seen = set()
     for where, k, post, kind, node, fn, note in entries:
